@@ -1,5 +1,17 @@
 package main
 
+// with adds further clauses to a rule (same ID, further obligations).
+func with(r *Rule, extra ...func(*RuleCtx)) *Rule {
+	base := r.Run
+	r.Run = func(c *RuleCtx) {
+		base(c)
+		for _, f := range extra {
+			f(c)
+		}
+	}
+	return r
+}
+
 // Rule registry.
 func allRules() []*Rule {
 	return []*Rule{
@@ -10,10 +22,10 @@ func allRules() []*Rule {
 		ruleR5(),
 		ruleR6(),
 		ruleR7(),
-		ruleR8(),
+		with(ruleR8(), r8CancelIdentity),
 		ruleR9(),
 		ruleR10(),
-		ruleR11(),
+		with(ruleR11(), r11TagFirst),
 		ruleR12(),
 		ruleR13(),
 		ruleR14(),
@@ -24,11 +36,11 @@ func allRules() []*Rule {
 		ruleR19(),
 		ruleR20(),
 		ruleR24(),
-		ruleR25(),
+		with(ruleR25(), r25ScratchBound),
 		ruleR26(),
-		ruleR27(),
+		with(ruleR27(), r27StoredBlock),
 		ruleR28(),
-		ruleR29(),
+		with(ruleR29(), r29FlagPerPosting),
 		ruleR30(),
 		ruleR31(),
 		ruleR32(),
